@@ -87,3 +87,32 @@ Proof. exact inv_router_wf. Qed.
    lookups, which report a shard that is merely being written as unavailable.  The list must be empty. *)
 Theorem C02_source_no_lossy_map_lookup : NW.Gen.LockLint.guard_across_await = [].
 Proof. reflexivity. Qed.
+
+(* ---------- interleaved semantics (Model/Conc.v): every schedule of suspended requests, disconnects, time-outs ---------- *)
+From Coq Require Import List NArith.
+From NW Require Import Model.Conc Proofs.ConcDefs Proofs.ConcEv Proofs.ConcInv Proofs.ConcSmall Proofs.ConcSource Gen.ConcFlags.
+Import ListNotations.
+Local Open Scope N_scope.
+
+Theorem C02_source_segment_layout :
+  forallb snd conc_source_shape = true.
+Proof. exact source_segment_layout. Qed.
+
+From NW Require Import Proofs.ConcMore.
+
+Theorem C02_conc_broadcast_complete :
+  forall (cf : ccfg) (es : list ev) (t : tid) (ok : bool) (hint : user) (c : conn) (id : N),
+    let s := cstate_after cf es in
+    In (OAck c id A_BCAST) (snd (cstep cf s (ERun t ok hint))) ->
+    exists (k : task) (ch : chan) (payload : N) (o : oid),
+      In (t, k) (tasks s) /\
+      t_conn k = Some c /\
+      ((exists id' : N, t_pc k = PStart (RBcast ch payload id')) \/
+       (exists id' : N, t_pc k = PBcastGate ch payload id') \/
+       (exists id' : N, t_pc k = PBcastWait ch o payload id')) /\
+      In (t_me k) (members (objs (cg s) o)) /\
+      (forall (u : user) (c' : conn),
+       In u (members (objs (cg s) o)) ->
+       In c' (reg (cg s) u) ->
+       c' <> c -> In (OMsg c' ch (t_me k) payload) (snd (cstep cf s (ERun t ok hint)))).
+Proof. exact conc_broadcast_complete. Qed.
